@@ -52,8 +52,17 @@ def pseudo(src: bytes, dst: bytes, proto: int, length: int) -> bytes:
     return src + dst + struct.pack("!I3xB", length, proto)
 
 
+# legitimate lower-layer variations, switched on per capture by VARIATION (a dict; set by the harness, default none):
+#   tcp_opts: TCP timestamp option (12 option bytes, data offset 8)     ip6_ext: an IPv6 Destination Options header before the transport header
+#   ip4_opts: an IPv4 NOP/NOP/NOP/EOL option word (IHL 6)               eth_pad: short frames padded to the 60-byte Ethernet minimum
+VARIATION = {}
+
+
 def tcp_segment(src, dst, sport, dport, seq, ack, flags, payload=b"", window=65535, bad_sum=None, sum_override=None):
-    hdr = struct.pack("!HHIIBBHHH", sport, dport, seq & 0xFFFFFFFF, ack & 0xFFFFFFFF, 5 << 4, flags, window, 0, 0)
+    opts = b""
+    if VARIATION.get("tcp_opts"):
+        opts = b"\x01\x01\x08\x0a" + struct.pack("!II", (seq * 7) & 0xFFFFFFFF, (ack * 3) & 0xFFFFFFFF)
+    hdr = struct.pack("!HHIIBBHHH", sport, dport, seq & 0xFFFFFFFF, ack & 0xFFFFFFFF, (5 + len(opts) // 4) << 4, flags, window, 0, 0) + opts
     seg = hdr + payload
     c = csum16(pseudo(src, dst, 6, len(seg)) + seg)
     if bad_sum:
@@ -78,15 +87,22 @@ def udp_datagram(src, dst, sport, dport, payload=b"", bad_sum=None, sum_override
 
 def ip_packet(src, dst, proto, payload, ident=0, ttl=64):
     if len(src) == 4:
-        hdr = struct.pack("!BBHHHBBH4s4s", 0x45, 0, 20 + len(payload), ident & 0xFFFF, 0x4000, ttl, proto, 0, src, dst)
+        opts = b"\x01\x01\x01\x00" if VARIATION.get("ip4_opts") else b""
+        hdr = struct.pack("!BBHHHBBH4s4s", 0x45 + len(opts) // 4, 0, 20 + len(opts) + len(payload), ident & 0xFFFF, 0x4000, ttl, proto, 0, src, dst) + opts
         c = csum16(hdr)
         return hdr[:10] + struct.pack("!H", c) + hdr[12:] + payload
+    if VARIATION.get("ip6_ext"):
+        ext = struct.pack("!BB", proto, 0) + b"\x01\x04\x00\x00\x00\x00"       # Destination Options: next header, length 0 (8 bytes), PadN
+        return struct.pack("!IHBB16s16s", 6 << 28, len(ext) + len(payload), 60, ttl, src, dst) + ext + payload
     return struct.pack("!IHBB16s16s", 6 << 28, len(payload), proto, ttl, src, dst) + payload
 
 
 def eth_frame(smac, dmac, ip_pkt):
     et = 0x0800 if ip_pkt[0] >> 4 == 4 else 0x86DD
-    return dmac + smac + struct.pack("!H", et) + ip_pkt
+    fr = dmac + smac + struct.pack("!H", et) + ip_pkt
+    if VARIATION.get("eth_pad") and len(fr) < 60:
+        fr += b"\x00" * (60 - len(fr))
+    return fr
 
 
 def tcp_frame(flow: Flow, d: str, seq: int, ack: int, payload: bytes, flags=PSH | ACK, **kw):
